@@ -10,6 +10,7 @@
 -/
 import Kopf.Drv.Json
 import Kopf.Model.C16_Storage
+import Kopf.Model.C16_Listed
 open Lean
 namespace Kopf.Drv.C16
 open Kopf Kopf.C16
@@ -170,6 +171,8 @@ def handle : DrvHandler := fun op args =>
       some (ok (.str (String.ofList (edgedName (mkEnv tbl).sfx name k m))))
   | "C16.safe", [k] => do
       some (ok (.str (String.ofList (safeKey (← jStr? k).toList))))
+  | "C16.listed", [rsp] => do
+      some (ok (.arr ((listObjs (← toJ rsp)).map ofJ).toArray))
   | "C16.isdrs", [body] => do
       some (ok (.bool (isDRS (← toJ body))))
   | "C16.fetch", [s, tbl, body, k] => do
